@@ -405,8 +405,63 @@ def case_join(ctx, kind, case_seed):
     return line, obs, shared, viol, tag
 
 
+def case_parts(ctx, kind, case_seed):
+    """copies of single atoms and bonds: evolve() (with and without changes), deepcopy, pickle — oracle only"""
+    import copy as _copy
+    import pickle as _pickle
+
+    import molli as ml
+
+    rng = common.Prng(case_seed)
+    src = H.make_source(rng, kind, ml)
+    tag = {"case": "parts", "kind": kind, "case_seed": case_seed}
+    viol = []
+    snap0 = H.snapshot(src)
+    parts = [("atom", rng.choice(list(src.atoms)))] if src.n_atoms else []
+    if H.has_bonds(src) and len(src.bonds):
+        parts.append(("bond", rng.choice(list(src.bonds))))
+    for what, x in parts:
+        x.attrib = {"p": [1, {"q": 2}], "r": 3}
+        fields = (lambda a: H.atom_fields(a, H.Intern())) if what == "atom" else (lambda b: H.bond_fields(b, H.Intern()))
+        base_attr = _copy.deepcopy(x.attrib)
+        snap0 = H.snapshot(src)
+        for route, f in (("evolve()", lambda: x.evolve()), ("evolve(label=…)", lambda: x.evolve(label="changed")),
+                         ("deepcopy", lambda: _copy.deepcopy(x)),
+                         ("pickle", lambda: _pickle.loads(_pickle.dumps(x, protocol=rng.range(2, _pickle.HIGHEST_PROTOCOL))))):
+            label = f"{route} of a {what} of a {kind}"
+            try:
+                y = f()
+            except Exception as e:
+                viol.append(("C06:route-raised", f"{label} raised {type(e).__name__}: {str(e)[:80]}"))
+                continue
+            if H.snapshot(src) != snap0:
+                viol.append(("C06:source-changed-by-derivation", f"{label} changed the molecule"))
+            fx, fy = fields(x), fields(y)
+            if route == "evolve(label=…)":
+                if y.label != "changed":
+                    viol.append(("C06:copy-differs-from-source:fields", f"{label}: the change was not applied"))
+                y.label = x.label
+                fy = fields(y)
+            if fx != fy or y.attrib != base_attr:
+                viol.append(("C06:copy-differs-from-source:fields", f"{label}: fields or attributes differ"))
+            sh = [p for p, c in (("attrib", y.attrib), ("attrib['p']", y.attrib.get("p")), ("attrib['p'][1]", (y.attrib.get("p") or [0, 0])[1]))
+                  if any(c is d for d in (x.attrib, x.attrib["p"], x.attrib["p"][1]))]
+            if sh:
+                viol.append((f"C06:copy-shares-state:{component(sh[0])}", f"{label}: {sh} shared with the original"))
+            y.attrib["p"].append("m")
+            y.attrib["p"][1]["z"] = 1
+            y.attrib["new"] = 1
+            if x.attrib != base_attr or H.snapshot(src) != snap0:
+                viol.append(("C06:source-changed-by-editing-copy:attrib", f"{label}: editing the copy changed the original"))
+                x.attrib = _copy.deepcopy(base_attr)
+            ctx.count(f"route=parts:{what}:{route}")
+    return None, None, None, viol, tag
+
+
 def run_case(ctx, t):
     c = t["case"]
+    if c == "parts":
+        return case_parts(ctx, t["kind"], t["case_seed"])
     if c == "copy":
         return case_copy(ctx, t["kind"], t["route"], t["case_seed"])
     if c == "copyas":
@@ -444,6 +499,7 @@ def plan_round(rng):
                 out.append({"case": "copyas", "kind": kind, "target": target, "mode": "cast", "case_seed": seed(),
                             "kw": [rng.choice(H.keyword_names(target))]})
         out.append({"case": "copyas", "kind": kind, "target": rng.choice(H.CLASSES), "mode": "atoms", "case_seed": seed()})
+        out.append({"case": "parts", "kind": kind, "case_seed": seed()})
     out.append({"case": "copyas", "kind": "Molecule", "target": "ConformerEnsemble", "mode": "enslist", "case_seed": seed()})
     for kind in ("Structure", "Molecule"):
         for _ in range(4):
@@ -478,7 +534,7 @@ def run(ctx):
 
     cases = []   # (line, obs, shared, tag)
     seen = set()
-    reps = 3 if ctx.quick() else 80
+    reps = 5 if ctx.quick() else 80
     plan = []
     cdir = common.VERIF / "corpus" / "C06"
     for p in sorted(cdir.glob("*.json")) if cdir.exists() else []:
